@@ -773,9 +773,9 @@ def read_facts():
 def run(ck):
     rng = random.Random(ck.seed * 7919 + 17)
     thorough = ck.tier == "thorough"
-    gen = run_all(["pipeline", "inspect", "run_space", "cli"])
+    gen = run_all(["pipeline", "inspect", "run_space", "cli", "loader"])
     gen = {k: v for k, v in gen.items() if k in ("cli", "run_space", "pipeline")}   # the inspect facts are C02's obligation
-    ck.build_models(["Model/PipelineLib.v", "Model/Cli.v", "Gen/PipelineGen.v", "Gen/InspectGen.v", "Gen/RunSpaceGen.v", "Gen/CliGen.v"])
+    ck.build_models(["Model/PipelineLib.v", "Model/Cli.v", "Gen/PipelineGen.v", "Gen/InspectGen.v", "Gen/RunSpaceGen.v", "Gen/CliGen.v", "Model/Loader.v", "Gen/LoaderGen.v"])
     proved = ck.prove(gen_results=gen)
     if thorough and proved:
         ck.coqchk()
